@@ -278,11 +278,13 @@ def run(ctx):
     mp = prog.fn("warp_core::engine_impl::merge_parallel_deltas")
     oks, errs = ok_return_blocks(mp)
     sorts = mp.call_sites(r"sort_unstable_by$|::sort_by$|::sort_by_key$|::sort_unstable_by_key$|::sort$|::sort_unstable$")
-    merged = mp.call_sites(r"tick_delta::merge_deltas$")
+    merged = mp.call_sites(r"::merge_deltas$")
     if merged:
-        # delta_validate configuration: the canonical merge is merge_deltas
-        md = prog.fn("warp_core::tick_delta::merge_deltas")
-        rep.ok("C01.R4", "merge:delegates-to-merge_deltas", "merge_parallel_deltas delegates to merge_deltas in this configuration", site=mp.loc())
+        # delta_validate configuration: the canonical merge is merge_deltas (sort + conflict detection live there)
+        md = prog.fn(mp.callee_of(mp.blocks[merged[0]]["t"]))
+        mds = md.call_sites(r"::sort_by$|::sort_unstable_by$|::sort_by_key$|::sort$")
+        rep.check(bool(mds) and dominates(md, mds, ok_return_blocks(md)[0]) is None, "C01.R4", "merge:delegates-to-merge_deltas",
+                  "merge_parallel_deltas delegates to merge_deltas, whose Ok returns are dominated by its sort", "merge_deltas no longer sorts before returning Ok", site=md.loc())
     else:
         rep.check(len(sorts) >= 1 and len(oks) >= 1, "C01.R4", "merge:sort-present", "sort call present (%d), Ok returns %d" % (len(sorts), len(oks)),
                   "merge_parallel_deltas has no sort (%d) or no Ok return (%d)" % (len(sorts), len(oks)), site=mp.loc())
